@@ -1,6 +1,7 @@
 mod drv_bool;
 mod drv_circuit;
 mod drv_hashtbl;
+mod drv_mv;
 mod drv_names;
 mod drv_pick;
 mod drv_num;
@@ -42,6 +43,8 @@ fn main() {
         "tables" => by_kind!(kind, tables, &args),
         "hist" => by_kind!(kind, hist, &args),
         "reorder" => by_kind!(kind, reorder, &args),
+        "tdd" => drv_mv::tdd(&args),
+        "mtbdd" => drv_mv::mtbdd(&args),
         "pick" => match kind.as_str() {
             "bdd" => drv_pick::pick::<BDDFunction>(&args),
             "bcdd" => drv_pick::pick::<BCDDFunction>(&args),
